@@ -236,6 +236,55 @@ def _task(task, p):
                              "expected_windows": ref_windows(4, 2, 2, 1)})
 
 
+def dtypes(ctx):
+    """Cubes of narrow integer and boolean dtypes: the sums are the arithmetic sums of the windows (no wrap in the
+    cube's own dtype), the means their means, for every n / begin / end on a short axis."""
+    import pandas as pd
+    import xarray as xr
+    import hdc.algo  # noqa: F401
+    sub = "cube_dtypes"
+    L = 6
+    time = pd.date_range("2000-01-01", periods=L, freq="10D")
+    base = (np.arange(L * 2 * 2).reshape(L, 2, 2) * 1237) % 9000 + 600
+    cubes = {
+        "int16": base.astype("int16") * 3,                # window sums beyond 32767
+        "int32": (base * 200000).astype("int32"),          # window sums beyond 2**31
+        "uint8": (base % 200 + 50).astype("uint8"),
+        "bool": (base % 3 == 0),
+        "float32": (base * 1.5).astype("float32"),
+    }
+    for dt, arr in cubes.items():
+        da = xr.DataArray(arr, dims=("time", "y", "x"), coords={"time": time})
+        exact = arr.astype(np.float64)
+        for n in range(1, L + 1):
+            for bpos in (None, L - 1, 3):
+                for epos in (None, 0, 2):
+                    kw = {}
+                    if bpos is not None:
+                        kw["begin"] = time[bpos]
+                    if epos is not None:
+                        kw["end"] = time[epos]
+                    wins = ref_windows(L, n, L - 1 if bpos is None else bpos, 0 if epos is None else epos)
+                    for func in ("sum", "mean"):
+                        got = list(getattr(da.hdc.iteragg, func)(n=n, **kw))
+                        ctx.count(sub, evaluations=1, states=1, transitions=len(got) + 1, traces_validated_against_impl=1, nontrivial=1)
+                        ok = len(got) == len(wins)
+                        msg = f"{len(got)} windows, expected {len(wins)}"
+                        if ok:
+                            for (s0, e0), item in zip(wins, got):
+                                blk = exact[s0:e0 + 1]
+                                exp = blk.sum(axis=0) if func == "sum" else blk.mean(axis=0)
+                                v = np.asarray(item.values, dtype=np.float64)[0]
+                                if not np.allclose(v, exp, rtol=1e-6, atol=0):
+                                    ok = False
+                                    msg = f"window {s0}..{e0}: {func} {v.ravel().tolist()} instead of {exp.ravel().tolist()}"
+                                    break
+                        if not ok:
+                            ctx.violation(sub, {"dtype": dt, "n": n, "begin": bpos, "end": epos, "func": func}, {"kind": "dtypes"},
+                                          f"iteragg.{func}(n={n}, begin={bpos}, end={epos}) on a {dt} cube: {msg}")
+    ctx.sample(sub, {"dtypes": list(cubes), "axis_length": L})
+
+
 def misc(ctx):
     """Argument validation outside the product."""
     da, lab, *_ = make_da(4, "time", False)
@@ -260,6 +309,7 @@ def run(ctx):
     ctx.pmap(_task, tasks)
     ctx.note("max_axis_length", maxL)
     misc(ctx)
+    dtypes(ctx)
 
 
 def replay(sub, case, p):
@@ -268,5 +318,7 @@ def replay(sub, case, p):
         da, lab, before, after, mids, near = make_da(L, kind, False)
         cands = {str(c): c for c in [None] + list(lab) + mids + [before, after] + near}
         check_config(p, L, kind, case["nan"], case["n"], cands[case["begin"]], cands[case["end"]], case["method"], case["func"], {})
+    elif case.get("kind") == "dtypes":
+        dtypes(p)
     else:
         misc(p)
